@@ -278,7 +278,7 @@ class pdb2sql_base(object):
         else:
             if rmdb:
                 self.conn.close()
-                os.system('rm %s' % (self.sqlfile))
+                os.remove(self.sqlfile)
             else:
                 self._commit()
                 self.conn.close()
